@@ -28,6 +28,9 @@ claimed = {
  "C13": dict(cat="model_checking",
    text="Every well-formed program of L=3 (quick) / 4 (thorough) statement operations - Allocate, Pipeline (both updateTaskIfExistsOnNode values where the actions can pass them), Evict, Unevict, Checkpoint, Rollback(any earlier checkpoint), end - over 2 tasks / 1 node (quick) or 3 tasks / 2 nodes (thorough), from every initial session state (each task Pending, Running or Releasing, placed by the real NodeInfo.AddTask) with symbolic node capacity and task requests, is run through the real framework.Statement on a session with the real proportion allocate/deallocate handlers. After Discard, and after every Rollback, the solver decides term-by-term equality of a canonical dump (node idle/used/releasing in structured and vector form, shared-GPU maps, pods on node, task status/node/groups/virtual flag, job allocated + status index + counters + pod-set counters, queue allocated and non-preemptible at both levels) with the dump taken at that point, and that the cache saw no call; after Commit, each pod is bound, nominated or evicted at most once and exactly the pods whose final virtual status is Allocated / Pipelined / Releasing. Exhaustive over programs within the bound; quantities symbolic.",
    ref="DESIGN.md section 5 C13"),
+ "C02": dict(cat="model_checking",
+   text="A node with G in {1,2,3} GPUs holds 0..2 GPU-memory sharers (running or terminating, on one of two groups, memory requests SYMBOLIC) and a whole-GPU pod, all placed by the real NodeInfo.AddTask; a new GPU-memory request (boundary menu relative to the device memory, 1..2 devices) is placed by the real Session.FittingNode + allocateTaskToNode -> gpu_sharing.AllocateFractionalGPUTaskToNode (FittingGPUs, GetNodePreferableGpuForSharing, IsTaskFitOnGpuGroup, EnoughIdleResourcesOnGpu, shared-GPU accounting) and committed. The solver decides for all sharer memories: a task that is Allocated (to be bound) joins only groups whose occupying sharers (incl. terminating) still fit the device; groups in use + whole GPUs <= GPU count; a request for N devices gets N distinct groups; a task relying on terminating memory is only nominated and no Bind is emitted for it. Device memory and the new request are concrete menu values because the derived portion ceil(m/T*100)/100 steers control flow and is computed with real IEEE arithmetic; fraction-annotation requests and GPU ordering plugins are outside.",
+   ref="DESIGN.md section 5 C02"),
  "C01": dict(cat="model_checking",
    text="On a node holding 0..2 pods in any mix of running / terminating / allocated-this-cycle / nominated statuses (pre-state built by the real NodeInfo.AddTask, constrained only to reachable states), 1 (quick) / 2 (thorough) new tasks are placed by the real Session.FittingNode + actions/common.allocateTaskToNode (IsTaskAllocatable, IsTaskAllocatableOnReleasingOrIdle, Statement.Allocate/Pipeline) and the statement is committed against a cache whose Bind may fail; node capacity and every request are symbolic in one dimension at a time (milli-cpu, whole GPUs, pod slots with regular pods, pod slots with best-effort pods). The solver decides for all values: after commit the pods occupying the node (running, terminating, bound, binding, allocated - recomputed from the pod list) never exceed allocatable; a task that needs terminating capacity is only nominated and never bound; a failed bind restores the node's idle/used/releasing. Fractional GPUs are C02's harnesses; multi-node cycles, MIG and DRA are outside.",
    ref="DESIGN.md section 5 C01"),
